@@ -29,9 +29,24 @@ func isDialError(err error) bool {
 // for TUI output and logging.
 //
 //nolint:gocognit // intentionally complex; we could break it down further, but this is already quite readable
+// ClientSideError marks a failure of the connection to the client (see core.ClientSideError)
+type ClientSideError struct {
+	Err error
+}
+
+func (e *ClientSideError) Error() string { return "client connection: " + e.Err.Error() }
+func (e *ClientSideError) Unwrap() error { return e.Err }
+
 func MakeUserFriendlyError(err error, duration time.Duration, errorContext string, responseTimeout time.Duration) error {
 	if err == nil {
 		return nil
+	}
+
+	// a failed write to the client stays what it is: it must not be re-labelled as a problem
+	// of the connection to the backend
+	var clientSide *ClientSideError
+	if errors.As(err, &clientSide) {
+		return fmt.Errorf("client connection failed after %.1fs: %w", duration.Seconds(), err)
 	}
 
 	switch {
